@@ -597,6 +597,33 @@ func movedDuringDecoys() string {
 	return ""
 }
 
+// foreignTwin: the exported interfaces (UPID, SegmentationDescriptor, PmtDescriptor, PeekScanner, ..) can be implemented by
+// the caller.  run() is executed twice: with the library's own values, and (foreignMode) with the same values behind
+// caller-written wrappers that forward every method (foreign.go); the library may only use the interface, so the two
+// observations must be equal (seeded C09-u1, C10-u1, C19-u2, C20-u1: a type assertion to the concrete type).
+var foreignMode bool
+
+func foreignTwin(label string, run func() Val) Val {
+	foreignMode = false
+	r1 := run()
+	foreignMode = true
+	r2, panicked := func() (r Val, p string) {
+		defer func() {
+			if e := recover(); e != nil {
+				p = fmt.Sprint(e)
+			}
+		}()
+		return run(), ""
+	}()
+	foreignMode = false
+	if panicked != "" {
+		noteUnstable("%s: panics when it is handed a caller-written implementation of an exported interface: %s", label, panicked)
+	} else if !valEq(r1, r2) {
+		noteUnstable("%s: a caller-written implementation of an exported interface (forwarding every method) is treated differently from the library's own value: %s vs %s", label, valText(r1), valText(r2))
+	}
+	return r1
+}
+
 // nilTwin: a zero-length argument is tried both as a nil slice and as an empty non-nil slice (Go callers pass either);
 // the two observations must be equal, otherwise the op answers "not stable".  run must not depend on earlier runs.
 func nilTwin(label string, data []byte, run func(d []byte) Val) Val {
